@@ -6,7 +6,7 @@ import sys
 
 from . import core, tlc
 
-REPO = "/repo"
+REPO = os.environ.get("VERIF_REPO", "/repo")
 
 
 def record_tests(paths, name, timeout=1500, k=None):
